@@ -377,6 +377,9 @@ func (t *termer) term(v ssa.Value) string {
 				return "*alloc:" + a.Comment
 			}
 			if fv, ok := x.X.(*ssa.FreeVar); ok {
+				if sv := freeVarSingleValue(fv); sv != nil {
+					return t.term(sv)
+				}
 				return "var:" + fv.Name()
 			}
 			s := t.term(x.X)
@@ -503,6 +506,71 @@ func (t *termer) callTerm(cc *ssa.CallCommon) string {
 		name = "dyn:" + t.term(cc.Value)
 	}
 	return name + "(" + strings.Join(args, ", ") + ")"
+}
+
+// freeVarSingleValue: the captured variable behind fv is assigned exactly once (in the enclosing function, before capture)
+// and never by any closure; returns that value, else nil.
+func freeVarSingleValue(fv *ssa.FreeVar) ssa.Value {
+	fn := fv.Parent()
+	par := fn.Parent()
+	if par == nil {
+		return nil
+	}
+	idx := -1
+	for i, v := range fn.FreeVars {
+		if v == fv {
+			idx = i
+		}
+	}
+	var cell *ssa.Alloc
+	var viaFree *ssa.FreeVar
+	allInstrs(par, func(in ssa.Instruction) {
+		if mc, ok := in.(*ssa.MakeClosure); ok && mc.Fn == fn && idx >= 0 && idx < len(mc.Bindings) {
+			switch b := mc.Bindings[idx].(type) {
+			case *ssa.Alloc:
+				cell = b
+			case *ssa.FreeVar:
+				viaFree = b
+			}
+		}
+	})
+	if viaFree != nil {
+		return freeVarSingleValue(viaFree)
+	}
+	if cell == nil {
+		return nil
+	}
+	sv := singleStore(cell)
+	if sv == nil {
+		return nil
+	}
+	// no closure that captures the cell stores to it
+	stored := false
+	var scan func(f *ssa.Function)
+	scan = func(f *ssa.Function) {
+		for _, a := range f.AnonFuncs {
+			allInstrs(par, func(in ssa.Instruction) {
+				mc, ok := in.(*ssa.MakeClosure)
+				if !ok || mc.Fn != a {
+					return
+				}
+				for i, b := range mc.Bindings {
+					if b == ssa.Value(cell) {
+						allInstrs(a, func(i2 ssa.Instruction) {
+							if st, ok := i2.(*ssa.Store); ok && st.Addr == ssa.Value(a.FreeVars[i]) {
+								stored = true
+							}
+						})
+					}
+				}
+			})
+		}
+	}
+	scan(par)
+	if stored {
+		return nil
+	}
+	return sv
 }
 
 // ---- misc ------------------------------------------------------------------
